@@ -23,7 +23,7 @@ import os
 from mc import core
 
 SHORT = 0.15    # seconds: first-pass watchdog (a scaffold build takes ~1 ms)
-CONFIRM_MAX = 2  # confirmed hangs per interrupted function and worker before short time-outs are trusted
+CONFIRM_MAX = 1  # confirmed hangs per interrupted function and worker before short time-outs are trusted
 
 
 def _load():
@@ -33,7 +33,7 @@ def _load():
 
 
 def long_limit():
-    return 8.0 if core.TIER == "thorough" else 4.0
+    return 5.0 if core.TIER == "thorough" else 2.0
 
 
 QUICK_PLANS = ["testPoint.flo", "basic.flo", "testViaDoClausePer.flo"]
@@ -74,23 +74,29 @@ def items():
         step = 12
         for lo in range(0, nlines, step):
             out.append(("plan", name, pi, True, 0 if name in QUICK_PLANS else 1, lo, lo + step))
-    n = 4 if thorough else 3
-    for nn in range(2, n + 1):
-        nshard = 64 if nn == 4 else 8
+    # (frames, max frames with an `under`, quick-set flag, shards)
+    graphs = [(2, None, 0, 4), (3, 1, 0, 16)]
+    if thorough:
+        graphs += [(3, None, 1, 64), (4, 1, 1, 64)]
+    for nn, mu, qf, nshard in graphs:
         for s in range(nshard):
-            out.append(("links", "", nn, False, 0 if nn <= 3 else 1, s, nshard))
-        out.append(("firstnext", "", min(nn, 3), False, 0, 0, 1))
+            out.append(("links", mu, nn, False, qf, s, nshard))
+    out.append(("firstnext", "", 2, False, 0, 0, 1))
+    out.append(("firstnext", "", 3, False, 0, 0, 1))
     return out
 
 
 # ----------------------------------------------------------------------------- worker
+
+CONFIRMED = {}
+
 
 class Judge:
     def __init__(self, scripts):
         self.s = scripts
         self.p = core.Part()
         self.found = {}          # group -> (rank, example, what, replay)
-        self.confirmed = {}      # hanging function -> count
+        self.confirmed = CONFIRMED   # hanging function -> count (per worker process)
 
     def build(self, text, **kw):
         b = self.s.build(text, limit=SHORT, **kw)
@@ -179,11 +185,11 @@ def work(item):
                                       how="replace line %d of ioflo/app/plan/%s by `%s` and build it" % (lineno, name, mline)),
                     extra_files=plans, name=os.path.join(scripts.PLAN_DIR, name), metas=name in scripts.META_PLANS)
     elif kind == "links":
-        _, _, n, _, qflag, shard, nshards = item
-        for i, (label, text) in enumerate(scripts.gen_link_graphs(n)):
+        _, mu, n, _, qflag, shard, nshards = item
+        for i, (label, text) in enumerate(scripts.gen_link_graphs(n, mu)):
             if i % nshards != shard:
                 continue
-            J.judge((5, qflag, n, len(label), label), label, text)
+            J.judge((5, qflag, n, 0 if mu is not None else 1, len(label), label), label, text)
     elif kind == "firstnext":
         n = item[2]
         for label, text in scripts.gen_first_next_graphs(n):
